@@ -3,7 +3,7 @@
 import json, os
 HERE = os.path.dirname(os.path.dirname(os.path.abspath(__file__)))
 B = []
-def cfg(nidl=False, base=True, sw=False, regw=False, unix=False, life=0, nide=False, lstate=False): return dict(nidl=nidl, nide=nide, lstate=lstate, base=base, sw=sw, regw=regw, unix=unix, lifeSec=life, certKeys=["k1", "k2", "k3"])
+def cfg(nidl=False, base=True, sw=False, regw=False, unix=False, life=0, nide=False, lstate=False, so=False, twoh=False): return dict(nidl=nidl, nide=nide, lstate=lstate, so=so, twoh=twoh, base=base, sw=sw, regw=regw, unix=unix, lifeSec=life, certKeys=["k1", "k2", "k3"])
 def NN(k): return dict(op="NewNode", k=k)
 def AP(k): return dict(op="AuthorizePending", k=k)
 def RG(k, kind, ex="none"): return dict(op="Rogue", k=k, kind=kind, ex=ex)
@@ -36,6 +36,8 @@ for nidl, nide in ((False, False), (True, False), (True, True)):
 for nidl in (False, True):
     beh("f02_replay" + ("n" if nidl else ""), ["C02"], cfg(nidl=nidl), [E("k1"), E("k2"), C("k1"), RPL(C("k1")), C("k1", stt="ok"), RPL(C("k1", stt="ok")), C("k2", nid="own"), R("k1"), RPL(C("k1")), RPL(C("k1", stt="ok")), C("k1"),
                                                                      RPL(C("k2", nid="own")), R("k2"), RPL(C("k2", nid="own")), RE, E("k3"), C("k3"), RPL(C("k3"))])
+beh("f02_storeonce_native_nid", ["C02"], cfg(nidl=True, so=True), [E("k1"), E("k2"), C("k1", nid="own"), C("k1"), R("k1"), C("k1", nid="own"), C("k1"), C("k1", nid="own", stt="ok"), C("k2", nid="own"), D("k2"), R("k2"), C("k2", nid="own"), D("k2")])
+beh("f07_two_handles", ["C07", "C02"], cfg(twoh=True), [NN("k1"), D("k1"), D("k1"), AP("k1"), D("k1"), D("k1"), NN("k2"), D("k2"), AP("k2"), D("k2"), E("k3"), D("k3"), C("k3"), R("k3"), C("k3"), D("k3")])
 beh("f02_mixed", ["C02", "C14"], cfg(), [E("k1"), C("k1", kind="mixedFA"), C("k1", kind="mixedFA", ck="k2", chain="self"), C("k1", kind="mixedFA", priv=False), C("k1", kind="mixedAF"),
                                        C("k1", kind="mixedAF", ck="k3", chain="self"), D("k1")])
 beh("f14_reset_after_fetch", ["C14"], cfg(), [E("k1"), M("resetAfterHandshake", "fetch"), D("k1"), M("resetAfterHandshake", "fetch"), M("resetAfterHandshake", "fetch"), D("k1"),
